@@ -658,6 +658,15 @@ pub fn leaf_template_faults(len: u64, positions_seed: &mut Rng, extra_positions:
         SFault::Special { file: f.clone(), which: "dummy_asset1".into() },
         SFault::Special { file: f.clone(), which: "dummy_exit1".into() },
         SFault::Special { file: f.clone(), which: "dummy_exit2".into() },
+        SFault::Special { file: f.clone(), which: "dummy_asset_high".into() },
+        SFault::Special { file: f.clone(), which: "dummy_exit1_limb0".into() },
+        SFault::Special { file: f.clone(), which: "dummy_exit1_limb1".into() },
+        SFault::Special { file: f.clone(), which: "dummy_exit1_limb2".into() },
+        SFault::Special { file: f.clone(), which: "dummy_exit1_limb3".into() },
+        SFault::Special { file: f.clone(), which: "dummy_exit2_limb0".into() },
+        SFault::Special { file: f.clone(), which: "dummy_exit2_limb1".into() },
+        SFault::Special { file: f.clone(), which: "dummy_exit2_limb2".into() },
+        SFault::Special { file: f.clone(), which: "dummy_exit2_limb3".into() },
         // single-field deviations at the documented offsets (such a proof no longer verifies;
         // covers the condition no valid proof can violate: zero block hash with a non-zero output)
         SFault::EditPi { file: f.clone(), edits: vec![(16, 1)] },
